@@ -2,6 +2,7 @@
 package main
 
 import (
+	_ "time/tzdata"
 	"fmt"
 	"os"
 	"sort"
@@ -295,6 +296,63 @@ func run(r *ev.Run, l layout) {
 		}
 	}
 	outcomes["ranges"] = true
+	// location independence: the ranges are functions of the INSTANTS; the same instants presented in
+	// other Locations (fixed odd offsets, zones with daylight saving - around every transition of
+	// 2022-2024: the repeated hour, the skipped hour, both sides) give the same ranges
+	var locs []*time.Location
+	for _, zn := range []string{"UTC", "Asia/Shanghai", "America/New_York", "Europe/London", "Australia/Lord_Howe", "America/St_Johns", "Asia/Kathmandu", "Pacific/Apia", "Africa/Casablanca"} {
+		if lc, err := time.LoadLocation(zn); err == nil {
+			locs = append(locs, lc)
+		}
+	}
+	locs = append(locs, time.FixedZone("odd", 3600+17), time.FixedZone("west", -12*3600+1))
+	var li []time.Time
+	from := time.Date(2022, 1, 1, 0, 0, 0, 0, time.UTC)
+	for _, lc := range locs {
+		_, prev := from.In(lc).Zone()
+		for h := 0; h < 3*366*24 && len(li) < 4000; h++ {
+			t := from.Add(time.Duration(h) * time.Hour)
+			if _, off := t.In(lc).Zone(); off != prev {
+				prev = off
+				// the transition lies in (t-1h, t]; sample densely around it
+				for _, d := range []time.Duration{-2 * time.Hour, -time.Hour - time.Second, -time.Hour, -30 * time.Minute, -time.Second, 0, time.Second, 29 * time.Minute, 30 * time.Minute, time.Hour - time.Second, time.Hour, time.Hour + time.Second, 2 * time.Hour} {
+					li = append(li, t.Add(d).Add(123*time.Millisecond))
+				}
+			}
+		}
+	}
+	li = append(li, from.Add(12345678*time.Second), from.Add(500*24*time.Hour+999*time.Millisecond))
+	nloc := int64(0)
+	for i, t := range li {
+		if t.UnixMilli()-l.epoch < 0 || t.UnixMilli()-l.epoch > l.maxT()-86400000 {
+			continue
+		}
+		e := li[(i*7+3)%len(li)]
+		if e.Before(t) {
+			t, e = e, t
+		}
+		if t.UnixMilli()-l.epoch < 0 || e.UnixMilli()-l.epoch > l.maxT()-86400000 {
+			continue
+		}
+		r1a, r1b := snowflake.TimeIDRange(t.UTC())
+		b1a, b1b := snowflake.TimeBetweenID(t.UTC(), e.UTC())
+		for k, lc := range locs {
+			evals++
+			nloc++
+			r2a, r2b := snowflake.TimeIDRange(t.In(lc))
+			b2a, b2b := snowflake.TimeBetweenID(t.In(lc), e.In(locs[(k+1)%len(locs)]))
+			if r1a != r2a || r1b != r2b {
+				fail("TimeIDRange depends on the Location the instant is presented in", fmt.Sprintf("instant %v: [%d,%d] as UTC, [%d,%d] as %v", t.UTC(), r1a, r1b, r2a, r2b, t.In(lc)), nil)
+			}
+			if b1a != b2a || b1b != b2b {
+				fail("TimeBetweenID depends on the Location the instants are presented in", fmt.Sprintf("instants %v .. %v: [%d,%d] as UTC, [%d,%d] as %v .. %v", t.UTC(), e.UTC(), b1a, b1b, b2a, b2b, t.In(lc), e.In(locs[(k+1)%len(locs)])), nil)
+			}
+			if nviol > 10 {
+				return
+			}
+		}
+	}
+	outcomes[fmt.Sprintf("locations/%d", len(locs))] = true
 	r.Sample(map[string]interface{}{"layout": l.String(), "id": fam[len(fam)/2].id, "cn": snowflake.CnStyle(fam[len(fam)/2].id)})
 	r.AddPart(ev.Part{Name: name, Evaluations: evals, States: int64(len(fam)), Transitions: evals, Outcomes: int64(len(outcomes)), Exhaustive: !r.Expired(), Blocked: true,
 		Bound: fmt.Sprintf("%d boundary timestamps x 16 (node,step) corners; every one of the %d calendar days in range x 3 instants x 2 corners; all 2^%d low-bit values for %d timestamps; %d instants pairwise for ranges", len(ts), days, l.shift(), len(full), len(instants)), WallS: time.Since(t0).Seconds()})
@@ -302,7 +360,7 @@ func run(r *ev.Run, l layout) {
 
 func main() {
 	r := ev.Start("C07")
-	r.Rule("per layout (node bits 8/9/10 x node-at-lowest x three epochs, one process each): ids built from a boundary timestamp family (0,1,999..,2^k±1,max, calendar boundaries ±1ms 2000-2300, every millisecond of windows at 8 anchor dates) x (node,step) corners, EVERY calendar day the timestamp width reaches (first ms, the ms before, a day-dependent time of day), and ALL low-bit values for 1 (quick) / 3 (thorough) timestamps: IDFields/recombine, IDParse/IDParseEx, CnStyle/FromChStyle, order of adjacent ids; TimeBetweenID/TimeIDRange for all ordered pairs of boundary instants with ids probed around both endpoints")
+	r.Rule("per layout (node bits 8/9/10 x node-at-lowest x three epochs, one process each): ids built from a boundary timestamp family (0,1,999..,2^k±1,max, calendar boundaries ±1ms 2000-2300, every millisecond of windows at 8 anchor dates) x (node,step) corners, EVERY calendar day the timestamp width reaches (first ms, the ms before, a day-dependent time of day), and ALL low-bit values for 1 (quick) / 3 (thorough) timestamps: IDFields/recombine, IDParse/IDParseEx, CnStyle/FromChStyle, order of adjacent ids; TimeBetweenID/TimeIDRange for all ordered pairs of boundary instants with ids probed around both endpoints; the same instants presented in 11 Locations (fixed odd offsets, daylight-saving zones around every transition of 2022-2024) give the same ranges")
 	r.Assume("Asia/Shanghai is UTC+8 without DST from 2000 on", "instants at or after the epoch whose offset fits the timestamp width")
 	ls := layouts()
 	if r.Shard != "" {
